@@ -10,7 +10,7 @@ from numba_scfg.core.datastructures.basic_block import (
 
 from . import gen_graphs as gg
 from . import models as M
-from .core import exc_sig, norm
+from .core import exc_sig, library_raised, norm
 
 STAGES3 = ("closed", "loop", "branch")
 
@@ -28,6 +28,8 @@ def build(g, stage, payload="plain", trees=None):
     except RecursionError as e:
         return scfg, originals, e
     except Exception as e:  # the library raised: C02's business
+        if not library_raised(e):
+            raise
         return scfg, originals, e
     return scfg, originals, None
 
